@@ -3,6 +3,7 @@ from contracts import misc_small  # noqa
 from contracts import c12_rxn_arith as ARITH
 from contracts import c12_model_copy as MCOPY
 from contracts import w_tolerance as WT
+from contracts import c12_pickle as PK
 from props._generic import run_property, replay_with_driver
 
 LEVEL = "other"
@@ -10,7 +11,24 @@ KEYS = ["Reaction.copy", "Model.__setstate__", "Reaction.update_variable_bounds"
 
 
 def run(rep):
-    run_property(rep, KEYS, more=list(ARITH.GROUPS) + [(MCOPY.KEYS, MCOPY.HOOKS), (WT.KEYS, WT.HOOKS)], lemmas=lambda: ARITH.lemmas() + MCOPY.lemmas(), explanation=(
+    run_property(rep, KEYS, more=list(ARITH.GROUPS) + [(MCOPY.KEYS, MCOPY.HOOKS), (WT.KEYS, WT.HOOKS), (PK.KEYS + PK.ASSUMED_KEYS, PK.HOOKS)], lemmas=lambda: ARITH.lemmas() + MCOPY.lemmas() + PK.lemmas(), explanation=(
+        "The pickle / deepcopy PROTOCOL methods (contracts/c12_pickle.py; obj.__dict__ = record over the attribute names derived from the "
+        "__init__ sources, as for Model.copy): Model.__getstate__ returns a NEW dictionary with exactly the model's attributes, every "
+        "entry but `_contexts` holding the attribute's own value and `_contexts` a NEW EMPTY list - the model itself keeps every "
+        "attribute and its own context stack is not emptied (frame); Object.__getstate__ (Group, Metabolite, Gene, bare Object): a new "
+        "dictionary, `_model` None when the attribute exists, everything else as held, the object untouched; Species.__getstate__: as "
+        "Object's (by its contract) plus `_reaction` a NEW EMPTY set, the species' own set untouched; Reaction.__getstate__: a new "
+        "dictionary whose `_gpr` is the rule's TEXT str(rule) and whose other entries - `_model`, `_metabolites`, `_genes` included - are "
+        "the attributes' values, the reaction keeps its rule object; Reaction.__setstate__, for a state as written (rule text), a state "
+        "with a rule object, and old pickles (`reaction` dropped; gene_reaction_rule / lower_bound / upper_bound renamed to the private "
+        "names; rule taken from `_gene_reaction_rule`): the receiver's attributes are exactly the state's entries under their modern "
+        "names, `_gpr` is a rule OBJECT - the given one, else GPR.from_string(text), called exactly once -, every stoichiometry key and "
+        "every gene lists the receiver in `_reaction` in addition to what it listed and points at the receiver's model, every other "
+        "object's `_reaction` / `_model` is as found (two loop invariants over the key set / gene set in any order). Glue lemmas: the "
+        "restored rule is parsed from the text of the original rule; induction over the restored reactions (base: species start from "
+        "the empty set __getstate__ wrote; step: Reaction.__setstate__'s post-condition): y in x._reaction <=> y is a restored reaction "
+        "that uses x - with Model.__setstate__'s `members point at the restored model` the C02 cross-reference invariant of the "
+        "restored model, relative to the assumed codec (structural copy, each __setstate__ once, members before their reaction). "
         "The Model.tolerance setter (an assumed contract until round 5) is proved against its body: every optlang tolerance "
         "(feasibility, optimality, integrality) the interface supports is set to the value on the tolerances object of this "
         "model's solver configuration, an unsupported one is left alone (AttributeError swallowed), self._tolerance is set on every "
@@ -44,7 +62,7 @@ def run(rep):
         "What stays with the bounded driver: that a deep copy has the CONTENT of its source and the optimum of the copied solver "
         "(snapshot equality of copy/deepcopy/pickle incl. the solver problem, then every edit and depth-2 edit sequence incl. in-place "
         "edits of notes/annotations applied to one side with the other side compared, reaction arithmetic operands unchanged)."),
-        trusted=["copy.copy / copy.deepcopy / pickle (assumed)", "Model.copy: allocation by the constructors Model() / Metabolite() / Gene(None) / Reaction() / Group(id), "
+        trusted=["copy.copy / copy.deepcopy / pickle (assumed)", "pickle protocol: the codec copies state dictionaries structurally, calls each restored object's __setstate__ once and restores a reaction's metabolites / genes before the reaction; GPR.__str__ = to_string() text (rule_text), GPR.from_string(text) returns a new rule object parsed from that text (recorded call; text round trip bounded elsewhere); instances have exactly the attributes their __init__ methods assign", "Model.copy: allocation by the constructors Model() / Metabolite() / Gene(None) / Reaction() / Group(id), "
                  "copy() and deepcopy() returns a NEW object (assumed contracts); set-valued fields are modelled by value; "
                  "(Reaction.update_genes_from_gpr and Group.add_members: their contracts proved under C02 are applied at the call sites, "
                  "call-site lemmas obliged); a copy of a rule object has the same gene names", "optlang: solver.configuration.tolerances is a function of the solver object; assigning a tolerance attribute stores the value there or raises AttributeError with nothing written (ghost predicate tol_supported); logger / interface_to_str opaque", "an exception inside deepcopy would leave the pointers cleared "
